@@ -33,7 +33,7 @@ fn nontrivial(s: &Stats, _c: &Case) -> bool {
     s.has("mutation_after_replace_after_table_change")
 }
 
-fn report(c: &Case) -> CaseReport {
+pub fn report(c: &Case) -> CaseReport {
     history_report(c, oracles(), nontrivial)
 }
 
